@@ -45,14 +45,47 @@ pub enum Op {
 	CloneKeep,
 	/// `clone_from` into an independently built object that holds `n` unrelated entries, then continue on it.
 	CloneFromInto(usize),
+	/// `Object::canonicalize` (0) or `canonicalize_with` a shared buffer (1): values canonicalized, entries sorted by
+	/// UTF-16 key order (ties by value), index rebuilt.
+	Canonicalize(u8),
 }
 
+/// Value number `n`: a plain integer, except for a few structured values at the top of the range
+/// (two permutations of one object, a non-canonical number spelling, an array).
 fn val(n: u32) -> RefValue {
-	RefValue::Num(n.to_string())
+	match n {
+		999 => RefValue::Obj(vec![("y".into(), RefValue::num("2")), ("x".into(), RefValue::num("1"))]),
+		998 => RefValue::Obj(vec![("x".into(), RefValue::num("1")), ("y".into(), RefValue::num("2"))]),
+		997 => RefValue::num("1.50e0"),
+		996 => RefValue::Arr(vec![RefValue::Obj(vec![("\u{10000}".into(), RefValue::Null), ("\u{e000}".into(), RefValue::Null)])]),
+		_ => RefValue::Num(n.to_string()),
+	}
 }
 
 fn jv(n: u32) -> Value {
-	Value::from(n)
+	match n {
+		996..=999 => val(n).to_value(),
+		_ => Value::from(n),
+	}
+}
+
+/// Model of canonicalization of one value (RFC 8785 tree form).
+fn canon_tree(v: &RefValue) -> RefValue {
+	match v {
+		RefValue::Num(s) => RefValue::Num(crate::refcanon::canonical_number(s).unwrap_or_else(|| s.clone())),
+		RefValue::Arr(a) => RefValue::Arr(a.iter().map(canon_tree).collect()),
+		RefValue::Obj(o) => {
+			let mut es: Model = o.iter().map(|(k, x)| (k.clone(), canon_tree(x))).collect();
+			canon_sort(&mut es);
+			RefValue::Obj(es)
+		}
+		other => other.clone(),
+	}
+}
+
+fn canon_sort(es: &mut Model) {
+	// documented: sorted by key (RFC 8785: as UTF-16 code units), same key "sorted by value" (the crate's own Ord, see Sort)
+	es.sort_by(|a, b| crate::refcanon::utf16_cmp(&a.0, &b.0).then_with(|| a.1.to_value().cmp(&b.1.to_value())));
 }
 
 fn same_entry(e: &Entry, m: &(String, RefValue)) -> bool {
@@ -241,6 +274,17 @@ pub fn apply(op: &Op, obj: &mut Object, model: &mut Model) -> Result<(), String>
 			// documented: by key name (str order); entries with the same key "by value", i.e. by Value's own
 			// Ord (its coherence is C14's business), so ties are broken with the crate's comparison
 			model.sort_by(|a, b| a.0.as_str().cmp(b.0.as_str()).then_with(|| a.1.to_value().cmp(&b.1.to_value())));
+		}
+		Op::Canonicalize(how) => {
+			if *how == 0 {
+				obj.canonicalize()
+			} else {
+				let mut buffer = ryu_js::Buffer::new();
+				obj.canonicalize_with(&mut buffer)
+			}
+			let mut es: Model = model.iter().map(|(k, x)| (k.clone(), canon_tree(x))).collect();
+			canon_sort(&mut es);
+			*model = es;
 		}
 		Op::Rebuild(route) => {
 			let entries: Vec<Entry> = obj.iter().cloned().collect();
@@ -442,6 +486,7 @@ pub fn all_instances(keys: &[&str], len: usize, values: &[u32]) -> Vec<Op> {
 		v.push(Op::IterMutSet(i, values[(i + 1) % values.len()]));
 	}
 	v.push(Op::Sort);
+	v.push(Op::Canonicalize(0));
 	for r in 0..5 {
 		v.push(Op::Rebuild(r));
 	}
@@ -494,6 +539,7 @@ fn enc_op(op: &Op) -> J {
 		Op::CloneContinue => json!(["clone_continue"]),
 		Op::CloneKeep => json!(["clone_keep"]),
 		Op::CloneFromInto(n) => json!(["clone_from_into", n]),
+		Op::Canonicalize(h) => json!(["canonicalize", h]),
 	}
 }
 
@@ -524,6 +570,7 @@ pub fn dec_op(j: &J) -> Op {
 		"clone_continue" => Op::CloneContinue,
 		"clone_keep" => Op::CloneKeep,
 		"clone_from_into" => Op::CloneFromInto(j[1].as_u64().unwrap() as usize),
+		"canonicalize" => Op::Canonicalize(j[1].as_u64().unwrap() as u8),
 		other => panic!("unknown op {other}"),
 	}
 }
@@ -550,7 +597,7 @@ pub fn arb_op(keys: Vec<String>, bias_grow: bool) -> BoxedStrategy<Op> {
 	let nk = keys.len();
 	let key = (0..nk).prop_map(move |i| keys[i].clone()).boxed();
 	let mode = prop::sample::select(MODES.to_vec()).boxed();
-	let v = 0u32..1000;
+	let v = prop_oneof![12 => 0u32..996, 1 => 996u32..1000].boxed();
 	let grow = if bias_grow { 10 } else { 3 };
 	let shrink = if bias_grow { 2 } else { 8 };
 	prop_oneof![
@@ -564,6 +611,7 @@ pub fn arb_op(keys: Vec<String>, bias_grow: bool) -> BoxedStrategy<Op> {
 		shrink / 2 => key.clone().prop_map(Op::RemoveUnique),
 		shrink => (0usize..140).prop_map(Op::RemoveAt),
 		1 => Just(Op::Sort),
+		1 => (0u8..2).prop_map(Op::Canonicalize),
 		1 => (0u8..5).prop_map(Op::Rebuild),
 		1 => proptest::collection::vec((key.clone(), v.clone()), 0..6).prop_map(Op::ExtendEntries),
 		1 => proptest::collection::vec((key.clone(), v.clone()), 0..6).prop_map(Op::ExtendPairs),
